@@ -128,6 +128,7 @@ type FnInfo struct {
 	facts         map[*ssa.BasicBlock][]Atom
 	fieldLoads    []fieldLoad
 	allFieldLoads []fieldLoad
+	libCalls      []*ssa.Call
 }
 
 type fieldLoad struct {
